@@ -4,7 +4,7 @@
 export GOFLAGS=-mod=mod GOPROXY=off GOSUMDB=off GOTOOLCHAIN=local
 WT=/tmp/wt/confirm
 OUT=/root/scratch/seeded_confirm.tsv
-declare -A DIR=( [C16a]=helper [C16b]=helper [C17a]=helper [C17b]=helper [C07a]=strategy [C07b]=strategy/decorator [C08a]=strategy [C08b]=strategy [C02a]=trend [C02b]=momentum [C05a]=strategy/trend [C05b]=strategy/momentum [C10a]=asset [C10b]=asset [C09a]=strategy/decorator [C09b]=trend [C03a]=trend [C03b]=momentum [C06a]=strategy/volume [C06b]=strategy/trend [C01a]=volume [C01b]=trend [C04a]=strategy/volume [C04b]=strategy/trend [C19a]=helper [C19b]=asset [C11a]=helper [C11b]=helper [C15a]=volatility [C15b]=momentum [C12a]=asset [C12b]=asset [C13a]=backtest [C13b]=backtest [C18a]=strategy/trend [C18b]=strategy/volume [C14a]=strategy/trend [C14b]=strategy/decorator [C01ra]=trend [C01rb]=volatility [C04ra]=strategy/trend [C04rb]=volume [C05ra]=strategy/volume [C05rb]=strategy/decorator [C10ra]=asset [C10rb]=asset [C15ra]=momentum [C15rb]=momentum [C18ra]=strategy/trend [C18rb]=strategy/volume [C06ra]=strategy/trend [C06rb]=strategy/volume [C14ra]=strategy/trend [C14rb]=strategy/trend  [C16sa]=helper [C16sb]=helper [C11sa]=helper [C11sb]=helper [C07sa]=strategy/decorator [C07sb]=strategy [C12sa]=asset [C12sb]=asset [C19sa]=helper [C19sb]=asset [C02sa]=trend [C02sb]=trend [C03sa]=helper [C03sb]=strategy [C08sa]=strategy [C08sb]=strategy [C09sa]=strategy/decorator [C09sb]=trend [C13sa]=backtest [C13sb]=backtest [C17sa]=helper [C17sb]=helper)
+declare -A DIR=( [C16a]=helper [C16b]=helper [C17a]=helper [C17b]=helper [C07a]=strategy [C07b]=strategy/decorator [C08a]=strategy [C08b]=strategy [C02a]=trend [C02b]=momentum [C05a]=strategy/trend [C05b]=strategy/momentum [C10a]=asset [C10b]=asset [C09a]=strategy/decorator [C09b]=trend [C03a]=trend [C03b]=momentum [C06a]=strategy/volume [C06b]=strategy/trend [C01a]=volume [C01b]=trend [C04a]=strategy/volume [C04b]=strategy/trend [C19a]=helper [C19b]=asset [C11a]=helper [C11b]=helper [C15a]=volatility [C15b]=momentum [C12a]=asset [C12b]=asset [C13a]=backtest [C13b]=backtest [C18a]=strategy/trend [C18b]=strategy/volume [C14a]=strategy/trend [C14b]=strategy/decorator [C01ra]=trend [C01rb]=volatility [C04ra]=strategy/trend [C04rb]=volume [C05ra]=strategy/volume [C05rb]=strategy/decorator [C10ra]=asset [C10rb]=asset [C15ra]=momentum [C15rb]=momentum [C18ra]=strategy/trend [C18rb]=strategy/volume [C06ra]=strategy/trend [C06rb]=strategy/volume [C14ra]=strategy/trend [C14rb]=strategy/trend  [C16sa]=helper [C16sb]=helper [C11sa]=helper [C11sb]=helper [C07sa]=strategy/decorator [C07sb]=strategy [C12sa]=asset [C12sb]=asset [C19sa]=helper [C19sb]=asset [C02sa]=trend [C02sb]=trend [C03sa]=helper [C03sb]=strategy [C08sa]=strategy [C08sb]=strategy [C09sa]=strategy/decorator [C09sb]=trend [C13sa]=backtest [C13sb]=backtest [C17sa]=helper [C17sb]=helper [C01ta]=trend [C01tb]=trend [C04ta]=trend [C04tb]=strategy/decorator [C05ta]=strategy/trend [C05tb]=strategy [C06ta]=strategy/momentum [C06tb]=strategy/momentum [C10ta]=asset [C10tb]=asset [C14ta]=strategy/volume [C14tb]=strategy/decorator [C15ta]=trend [C15tb]=trend [C18ta]=strategy/volume [C18tb]=strategy/trend)
 git -C /repo worktree remove --force $WT 2>/dev/null
 git -C /repo worktree add --detach $WT HEAD >/dev/null 2>&1 || exit 1
 : > $OUT
